@@ -1300,3 +1300,97 @@ func pureOfArgs(f *ssa.Function, depth int) bool {
 	})
 	return ok
 }
+
+// noRecursiveFormat: a String / Error / GoString method that hands its own receiver to a fmt
+// formatting call under a verb that calls that same method again never returns (the stack
+// overflow is fatal and cannot be recovered). Every such method of the repository is checked:
+// the receiver (or a value-preserving conversion of it to the same named type) must not be an
+// operand of Sprintf/Sprint/Errorf/... unless the verb for it does not consult the method.
+func noRecursiveFormat(r *Run, w *World) {
+	methodVerbs := map[string]string{"String": "svxXq", "Error": "svxXq", "GoString": "v"}
+	for _, fn := range w.SrcFuncs() {
+		verbs, ok := methodVerbs[fn.Name()]
+		if !ok || fn.Signature.Recv() == nil || len(fn.Params) == 0 || fn.Parent() != nil {
+			continue
+		}
+		recv := fn.Params[0]
+		recvT := recv.Type()
+		n := 0
+		bad := ""
+		instrsOf(fn, func(in ssa.Instruction) {
+			c, ok := in.(*ssa.Call)
+			if !ok {
+				return
+			}
+			name := calleeName(c)
+			fmtIdx := -1
+			switch name {
+			case "fmt.Sprintf", "fmt.Errorf":
+				fmtIdx = 0
+			case "fmt.Fprintf":
+				fmtIdx = 1
+			case "fmt.Sprint", "fmt.Sprintln":
+			default:
+				return
+			}
+			n++
+			els := varargElems(c, len(c.Call.Args)-1)
+			format := ""
+			if fmtIdx >= 0 {
+				format, _ = constString(c.Call.Args[fmtIdx])
+			}
+			// verbs in order
+			var vs []byte
+			for i := 0; i+1 < len(format); i++ {
+				if format[i] != '%' {
+					continue
+				}
+				j := i + 1
+				for j < len(format) && strings.ContainsRune("+-# 0123456789.*[]", rune(format[j])) {
+					j++
+				}
+				if j < len(format) {
+					if format[j] != '%' {
+						vs = append(vs, format[j])
+					}
+					i = j
+				}
+			}
+			for k, e := range els {
+				if e == nil {
+					continue
+				}
+				v := e
+				if mi, ok := v.(*ssa.MakeInterface); ok {
+					v = mi.X
+				}
+				// the receiver itself, or the receiver re-typed to the same named type
+				isSelf := v == ssa.Value(recv)
+				if ct, ok := v.(*ssa.ChangeType); ok && ct.X == ssa.Value(recv) && types.Identical(ct.Type(), recvT) {
+					isSelf = true
+				}
+				if ld, ok := v.(*ssa.UnOp); ok && ld.Op == token.MUL && ld.X == ssa.Value(recv) {
+					// *ptrRecv: a value of the element type; its method set includes the value methods only
+					if _, isPtr := recvT.(*types.Pointer); isPtr {
+						isSelf = false
+					}
+				}
+				if !isSelf {
+					continue
+				}
+				verb := byte('v')
+				if fmtIdx >= 0 {
+					if k < len(vs) {
+						verb = vs[k]
+					}
+				}
+				if strings.ContainsRune(verbs, rune(verb)) {
+					bad = fmt.Sprintf("%s passes its receiver to %s under %%%c, which calls %s again: unbounded recursion", fnName(fn), name, verb, fn.Name())
+				}
+			}
+		})
+		if n > 0 || bad != "" {
+			r.Check(bad == "", fnName(fn)+" does not format itself", fn.Pos(), fmt.Sprintf("%d formatting calls, none re-enters the method", n), bad)
+		}
+	}
+}
